@@ -76,6 +76,7 @@ Definition mon_acquire (m : mstate) (t : nat) (o : output) : mstate * string :=
                 (set_waiting (waiting m) t false), "")
     end
   | OStuck => (m, "thread-stuck")
+  | OPanic => (m, "panic-in-acquire")
   | _ => (m, "bad-output-acquire")
   end.
 
@@ -94,6 +95,7 @@ Definition mon_clean_done (m : mstate) (t : nat) (ok : bool) (k : ckind) (o : ou
       | OAcqFailed => (mkM (users m) None (Some false) (holders m) (unbal m) (waiting m), "")
       | OAcquired => (m, "start-after-failed-clean")
       | OStuck => (m, "thread-stuck")
+      | OPanic => (m, "panic-after-clean")
       | _ => (m, "bad-output-cleandone")
       end
   | CRel b =>
@@ -103,6 +105,7 @@ Definition mon_clean_done (m : mstate) (t : nat) (ok : bool) (k : ckind) (o : ou
       then (mkM (users m) None (Some ok) (holders m) (unbal m) (waiting m), "")
       else (m, "wrong-release-result")
     | OStuck => (m, "thread-stuck")
+    | OPanic => (m, "panic-after-clean")
     | _ => (m, "bad-output-cleandone")
     end
   end.
@@ -250,7 +253,7 @@ Definition dmon_step (m : dmstate) (o : dop) (ob : dobs) : dmstate * string :=
   | _, DSkip => (m, "")
   | DGet k dig f, DGot n =>
     match slot_name (dm_open m) k with
-    | Some _ => (m, "bad-trace")
+    | Some _ => (m, "get-on-open-handle")
     | None =>
       if Nat.eqb users 0 && gf_clean f then (m, "start-after-failed-clean")
       else if negb (Nat.eqb (ob_cleans ob) (if Nat.eqb users 0 then 1 else 0))
@@ -279,7 +282,7 @@ Definition dmon_step (m : dmstate) (o : dop) (ob : dobs) : dmstate * string :=
     end
   | DClose k f, DClosed code =>
     match slot_name (dm_open m) k with
-    | None => (m, "bad-trace")
+    | None => (m, "close-on-closed-directory")
     | Some n =>
       let op' := drop_slot (dm_open m) k in
       if negb (N.eqb code (close_code users f)) then (m, "wrong-close-result")
@@ -294,6 +297,12 @@ Definition dmon_step (m : dmstate) (o : dop) (ob : dobs) : dmstate * string :=
   | DWrite k file, DWrote _ =>
     if negb (all_open_exist (dm_open m) post) then (m, "open-dir-vanished")
     else (mkDM (dm_open m) (dm_issued m) post, "")
+  | DReturn k, DRet =>
+    match slot_name (dm_open m) k with
+    | Some _ => (m, "bad-trace")
+    | None => (m, "")
+    end
+  | DReturn k, DLeaked => (m, "executor-returned-without-close")
   | _, _ => (m, "bad-output-dirs")
   end.
 
